@@ -37,8 +37,17 @@ Proof.
   destruct (Z.ltb_spec b 1) as [H1|H1]; destruct (Z.leb_spec b 0) as [H2|H2]; try reflexivity; lia.
 Qed.
 
+(** [gsum] is the left fold from the first element (NumPy's order); over Z it is [sumZ] (a right fold
+    ending in 0) by associativity and commutativity of the addition. *)
+Lemma fold_left_add_Z (t : list Z) (acc : Z) : fold_left (add Zn) t acc = acc + sumZ t.
+Proof.
+  revert acc. induction t as [|y t IH]; intros acc; cbn [fold_left sumZ].
+  - lia.
+  - rewrite IH. change (add Zn acc y) with (acc + y). lia.
+Qed.
+
 Lemma gsum_Z (l : list Z) : gsum Zn l = sumZ l.
-Proof. induction l as [|x t IH]; cbn [gsum sumZ]; [reflexivity|]. rewrite IH. reflexivity. Qed.
+Proof. destruct l as [|x t]; cbn [gsum sumZ]; [reflexivity|]. apply fold_left_add_Z. Qed.
 
 (** ---- penalise_savings ---- *)
 Lemma ginsert_desc_Z (x : Z) (l : list Z) : ginsert_desc Zn x l = insert_desc x l.
